@@ -98,7 +98,7 @@ def handle (_ : Unit) (toks : List Tok) : Unit × String :=
         let (st, code) := cliRun fs os es ss level
         -- the temporary files are not part of the observable result
         let user := st.fs.filter (fun kv => !kv.1.isTmp)
-        pure (encList [encNat code, encInt (C08.leftover es ss level), snapshot user])
+        pure (encList [encNat (exitStatus code), encInt (C08.leftover es ss level), snapshot user])
     | [Tok.str "free", files, p] => do
         let fs ← (← files.list?).mapM fileOf
         pure (encStr (render (firstFree fs (← pathOf p))))
